@@ -464,6 +464,8 @@ func writeEvidence(c *checkCtx, nviol int, replay string) {
 		"aborted_runs":                   b.aborted,
 		"yield_sites":                    b.sites,
 		"worker_processes":               b.chunks,
+		"long_lived_worker_processes":    b.longLived,
+		"runs_per_long_lived_process":    c.p.chunk * longSpan,
 		"real_components":                []string{"generated PEG parser", "parser actions", "evaluator (all syntax nodes)", "parseMutex (real sync.Mutex, acquired through TryLock)", "error types", "user-function dispatch"},
 		"replaced_components":            []string{"storage policy of sync.Pool (Put->Get contract preserved)", "blocking in sync.Mutex.Lock (TryLock + simulated park)", "Go map iteration order", "goroutine scheduling (one runnable task at a time, chosen by the seeded scheduler)"},
 		"harness_components":             []string{"caller tasks", "user callbacks", "documents", "configs"},
